@@ -289,6 +289,43 @@ def r18_3(prog):
     return r
 
 
+def r18_8(progK):
+    """The generated selector and the generated alternatives table number the rows alike.  asn1c_lang_C_OpenType() builds
+    the open type's alternatives from the rows of the object set and *skips* a row whose cell has no value (a class field
+    `&Type OPTIONAL` left out by an object); the selector function emitted by emit_member_type_selector() turns the row it
+    found into `presence_index`.  If the first skips rows, the second may not hand out `row + 1`: every identifier after
+    an untyped row would select the next alternative's slot for the previous alternative's type."""
+    import re
+    r = Rule("R18.8", "if the alternatives table skips untyped rows, the emitted selector does not use the raw row number as presence index", floor=1)
+    g = progK.require("asn1c_lang_C_OpenType")
+    skips = False
+    for b in g.blocks.values():
+        if not (b.term and "cond" in b.term):
+            continue
+        ct = b.term["cond"].get("full_tree") or b.term["cond"]["tree"]
+        t = strip_casts(ct)
+        if isinstance(t, list) and t and t[0] == "un" and t[1] == "!" and any(n[0] == "member" and n[2] == "value" for n in walk(t)):
+            skips = True
+    f = progK.require("emit_member_type_selector")
+    n = 0
+    for b, i, e in f.calls():
+        if e.get("callee") != "asn1c_compiled_output":
+            continue
+        for a in e.get("args", []):
+            t = strip_casts(a.get("tree"))
+            if isinstance(t, list) and t and t[0] == "str" and "presence_index" in t[1] and "=" in t[1] and "result." in t[1]:
+                n += 1
+                raw = re.search(r"presence_index\s*=\s*row\b", t[1]) is not None
+                if raw and skips:
+                    r.bad(f, "selector-presence#%d" % n, "the emitted selector answers `%s` while asn1c_lang_C_OpenType leaves rows without a type out of "
+                                                         "the alternatives: after such a row the index names the wrong alternative" % t[1].strip(), e["line"])
+                else:
+                    r.ok(f, "selector-presence#%d" % n, "the presence index is %s" % ("the row number and no row is skipped" if raw else "not the raw row number"), e["line"])
+    if n == 0:
+        raise AnalysisBroken("emit_member_type_selector no longer emits an assignment to result.presence_index")
+    return r
+
+
 def run(ctx):
     from . import c13
     # R18.4: the holder and the selected alternative are members like any other: their storage is interpreted according to
@@ -306,7 +343,7 @@ def run(ctx):
     from . import c10
     r7 = c10.r10_10(ctx.prog("K"), load_tables("c10"), rid="R18.7", floor=8,
                     only=lambda f: "ioc" in f.name.lower() or "type_selector" in f.name or "_ioc" in f.relfile)
-    return run_config(ctx.prog("S"), "default") + [r18_2(ctx.prog("K")), r18_3(ctx.prog("S")), r4, r5, r6, r7]
+    return run_config(ctx.prog("S"), "default") + [r18_2(ctx.prog("K")), r18_3(ctx.prog("S")), r4, r5, r6, r7, r18_8(ctx.prog("K"))]
 
 
 def thorough(ctx):
